@@ -38,7 +38,7 @@ ASSUMPTIONS = [
 RTOL = 1e-8
 VOL_LISTINGS = ["vol-inc", "vol-rev", "vol-swap", "vol-shuffle"]           # re-listings of the data set's own (decreasing) blocks
 REPEAT_FAMILY = ["vol-repeat", "vol-eqswap", "vol-repeat-rev", "vol-repeat-apart"]
-TRANSFORMS = VOL_LISTINGS + REPEAT_FAMILY + ["q-perm", "mode-perm", "w-scale", "w-scale-2", "col-perm", "col-upper", "row-perm",
+TRANSFORMS = VOL_LISTINGS + REPEAT_FAMILY + ["q-perm", "mode-perm", "w-scale", "w-scale-2", "col-perm", "col-upper", "row-perm", "row-zfirst",
                                              "w-normalise", "col-both", "phonon-all"]
 NODE_BASED = ("lagrange", "krogh", "pchip", "akima", "hermite")
 
@@ -79,6 +79,11 @@ def transform(ds: synth.DataSet, name: str, rng) -> tuple:
         if (p == numpy.arange(d.nv)).all() or (p == numpy.arange(d.nv)[::-1]).all():
             p = numpy.roll(numpy.arange(d.nv), 2)                # neither the listed nor the reversed order
         kw["row_perm"] = p.tolist()
+    elif name == "row-zfirst":
+        # the row in which a component passes through exactly 0 (planted by build() when a crystal system is requested) listed FIRST
+        z = getattr(ds, "_zero_row", None)
+        if z is None or z == 0: return None, None
+        kw["row_perm"] = [z] + [i for i in range(d.nv) if i != z]
     elif name in VOL_LISTINGS:
         ident = numpy.arange(d.nv)
         if name == "vol-rev": p = ident[::-1]
@@ -224,6 +229,18 @@ def build(case, seed):
                             lattice=case["lattice"], law=case["law"], settings=settings, lattice_curvature=bool(case.get("lattice_curvature")))
     # accidental coincidences: neighbouring modes of a q-point that have EXACTLY the same frequency at the first listed volume only
     # (branches that cross there) — they are different modes with different volume dependence, in whatever order they are listed
+    # a symmetry-allowed coupling component that passes through exactly 0 at ONE volume (not the first listed): it is a component like any
+    # other, whichever row is listed first
+    if case["system"] and ds.static_volumes is None:
+        cand = [c for c, k_ in enumerate(ds.static_keys) if k_[0] != k_[1] and int(k_[1]) >= 4]
+        if cand and ds.nv >= 3:
+            c0 = cand[case["idx"] % len(cand)]; z = 1 + (case["idx"] % (ds.nv - 1))
+            col = ds.static_table[:, c0].copy()
+            ds.static_table[:, c0] = col - col[z]          # shifted so that it vanishes exactly at row z and nowhere else (monotone columns)
+            if numpy.count_nonzero(ds.static_table[:, c0] == 0.0) == 1:
+                ds._zero_row = int(z)
+            else:
+                ds.static_table[:, c0] = col
     np_ = ds.freqs.shape[2]
     for q in range(ds.nq):
         m = 3 + (q % max(1, np_ - 4)) if np_ >= 5 else None
